@@ -38,7 +38,8 @@ def text_mutants(text, rng, n):
         t = text
         for _ in range(rng.choice([1, 1, 1, 2, 3])):
             op = rng.choice(["del-char", "ins-char", "rep-token", "ins-token", "dup-line", "swap-lines", "truncate",
-                             "del-line", "del-token", "odd-ident", "odd-ident", "name-prefix"])
+                             "del-line", "del-token", "odd-ident", "odd-ident", "name-prefix",
+                             "ident-for-literal", "ident-for-literal", "literal-for-ident"])
             if not t:
                 t = rng.choice(VOCAB)
                 continue
@@ -51,6 +52,29 @@ def text_mutants(text, rng, n):
                     old_id = rng.choice(ids)
                     new_id = rng.choice(ODD_IDENTS)
                     t = _re.sub(r"(?<![A-Za-z0-9_])%s(?![A-Za-z0-9_])" % _re.escape(old_id), new_id, t)
+            elif op in ("ident-for-literal", "literal-for-ident"):
+                # a name where a literal stands (an enum value, a field number, a capacity naming a constant of
+                # any kind), or a literal where a name stands
+                import re as _re
+                ids = sorted(set(_re.findall(r"[A-Za-z_][A-Za-z0-9_.]*", t)) - KEYWORDS)
+                lits = [m_ for m_ in _re.finditer(r"(?<![A-Za-z0-9_.])(?:0x[0-9a-fA-F]+|[0-9]+)(?![A-Za-z0-9_])", t)]
+                if op == "ident-for-literal" and ids and lits:
+                    m_ = rng.choice(lits)
+                    name_ = rng.choice(ids)
+                    t = t[:m_.start()] + name_ + t[m_.end():]
+                    if rng.random() < 0.6:
+                        # make sure constants of every kind exist to be named: a string, a boolean, an integer
+                        name2 = rng.choice(["ZZ_S", "ZZ_B", "ZZ_I"])
+                        t = t[:m_.start()] + name2 + t[m_.start() + len(name_):]
+                        ls = t.split("\n")
+                        at = [i for i, l in enumerate(ls) if l.strip().startswith("proto ")]
+                        ls[(at[0] + 1) if at else 0:(at[0] + 1) if at else 0] = [
+                            'const ZZ_S = "x"', "const ZZ_B = true", "const ZZ_I = 3"]
+                        t = "\n".join(ls)
+                elif op == "literal-for-ident" and ids:
+                    occ = [m_ for m_ in _re.finditer(r"[A-Za-z_][A-Za-z0-9_.]*", t) if m_.group(0) not in KEYWORDS]
+                    m_ = rng.choice(occ)
+                    t = t[:m_.start()] + rng.choice(["0", "1", "7", "0x10", '"s"', "true"]) + t[m_.end():]
             elif op == "name-prefix":
                 ls = t.split("\n")
                 at = [i for i, l in enumerate(ls) if l.strip().startswith("proto ")]
@@ -128,7 +152,7 @@ def main(tier, replay=None):
     rep.assumptions += [
         "input is text decodable as UTF-8; allowed outcomes: a schema, a ParserError (any subclass), an OSError "
         "for an import that cannot be read; rendering an accepted schema may only raise RendererError",
-        "'never hangs' is observed as a limit of 10 s of CPU time per parse (60 s per command-line run), not wall-clock time",
+        "'never hangs' is observed as a limit of 20 s of CPU time per parse (garbage collection excluded) (60 s per command-line run), not wall-clock time",
         "totality over 'any text' is sampled (mutations of valid schemas, token soup, truncations), not proved; the "
         "specification contributes the outcome typing, the exact acceptance verdict for declaration-level mutants "
         "and the termination bound of the Compiler machine",
